@@ -367,6 +367,91 @@ def in_and_out_case(pr):
     return None
 
 
+def overlapping_resources_case(pr):
+    """the same file is reachable through two resources of one target (a directory and a path inside it; X.output
+    plus the directory that contains it): it is one file of the set, and an unchanged tree is skipped"""
+    pr.write("src/a.txt", "a")
+    pr.write("src/sub/b.txt", "b")
+    prod = _t([{"paths": ["src"]}], [{"paths": ["gen/out.txt"]}], name="prod", body="mkdir -p gen && cat src/a.txt > gen/out.txt")
+    cons = _t([{"paths": ["src", "src/sub"]}, {"paths": ["gen"]}, "prod.output"], None, name="cons")
+    pr.write("zinoma.yml", yml({"prod": prod, "cons": cons}))
+    if not _run_ok(pr, "cons"):
+        return None
+    pr.clear_log()
+    r = pr.run("cons")
+    if pr.log():
+        return {"property": "C03", "expected": "unchanged tree: prod and cons (whose resources overlap: src and src/sub, gen and prod.output) are skipped", "observed": "log %s" % pr.log(), "zinoma": r.brief()}
+    pr.edit("src/sub/b.txt", "b2-longer")
+    pr.clear_log()
+    r = pr.run("cons")
+    if "s cons" not in pr.log():
+        return {"property": "C02", "expected": "a rewritten file reachable through two resources forces cons to run", "observed": "log %s" % pr.log(), "zinoma": r.brief()}
+    return None
+
+
+def concurrent_saves_case(pr):
+    """ten independent targets finish at the same moment: each record is its own"""
+    ts = {}
+    for i in range(10):
+        pr.write("in%d/x.txt" % i, "v%d" % i)
+        ts["t%d" % i] = _t([{"paths": ["in%d" % i]}], [{"paths": ["out%d.txt" % i]}], name="t%d" % i, body="cat in%d/x.txt > out%d.txt" % (i, i), sleep=0.3)
+    pr.write("zinoma.yml", yml(ts))
+    names = sorted(ts)
+    for rep in range(3):
+        if not _run_ok(pr, *names):
+            return None
+        pr.clear_log()
+        r = pr.run(*names)
+        if pr.log():
+            return {"property": ["C18", "C03"], "expected": "ten independent targets built concurrently: each has its own record, an untouched tree runs nothing (round %d)" % rep, "observed": "log %s" % pr.log(), "zinoma": r.brief()}
+        pr.edit("in3/x.txt", "changed-%d" % rep)
+        pr.clear_log()
+        r = pr.run(*names)
+        started = sorted(l for l in pr.log() if l.startswith("s "))
+        if started != ["s t3"]:
+            return {"property": ["C18", "C02"], "expected": "after editing in3/x.txt exactly t3 runs", "observed": "started %s" % started, "zinoma": r.brief()}
+        pr.remove(".zinoma")
+    return None
+
+
+def dep_and_output_case(pr):
+    """the consumer lists the producer both under dependencies and as X.output"""
+    pr.write("psrc/p.txt", "p1")
+    prod = _t([{"paths": ["psrc"]}], [{"paths": ["gen.txt"]}], name="prod", body="cat psrc/p.txt > gen.txt")
+    cons = _t(["prod.output"], [{"paths": ["final.txt"]}], name="cons", body="cat gen.txt > final.txt", deps=["prod"])
+    pr.write("zinoma.yml", yml({"prod": prod, "cons": cons}))
+    if not _run_ok(pr, "cons"):
+        return None
+    pr.clear_log()
+    pr.run("cons")
+    if pr.log():
+        return None
+    pr.edit("psrc/p.txt", "p2-longer")
+    pr.clear_log()
+    r = pr.run("cons")
+    if "s cons" not in pr.log() or (pr.read("final.txt") or "").strip() != "p2-longer":
+        return {"property": "C13", "expected": "prod listed under dependencies and as prod.output: its changed output re-runs cons", "observed": "log %s final.txt=%r" % (pr.log(), pr.read("final.txt")), "zinoma": r.brief()}
+    return None
+
+
+def sibling_import_case(pr):
+    """mono-repo layout: app imports ../lib; lib's target is decided identically from app, as a dependency, from lib"""
+    pr.write("lib/src/a.txt", "hello")
+    pr.write("lib/zinoma.yml", yml({"gen": _t([{"paths": ["src"]}, {"cmd_stdout": "echo constant"}], [{"paths": ["out.txt"]}], name="gen", body="cat src/a.txt > out.txt")}, name="lib"))
+    pr.write("app/zinoma.yml", yml({"all": _t(None, None, name="all", deps=["lib::gen"])}, imports={"lib": "../lib"}))
+    pr.symlink("lib", "liblink")
+    pr.write("app2/zinoma.yml", yml({"all": _t(None, None, name="all2", deps=["lib::gen"])}, imports={"lib": "../liblink"}))
+    r = pr.run("all", cwd=pr.path("app"))
+    if r.rc != 0 or "s gen" not in pr.log():
+        return None
+    for (args, cwd, how) in ((["gen"], "lib", "from lib's own directory"), (["lib::gen"], "app", "qualified from app"), (["all"], "app", "as a dependency from app"), (["all"], "app2", "from app2, which imports lib through a symbolic link"), (["-p", "lib", "gen"], ".", "with -p lib"), (["gen"], "lib", "from lib again")):
+        pr.clear_log()
+        r = pr.run(*args, cwd=pr.path(cwd))
+        if r.rc != 0 or "s gen" in pr.log():
+            return {"property": "C18", "expected": "lib::gen, built once through app (imports ../lib), is skipped when reached %s" % how, "observed": "exit %s log %s" % (r.rc, pr.log()), "zinoma": r.brief()}
+    return None
+
+
 def cases(seed):
     C = lambda n, fn, what: Case("incr", n, fn, what)
     out = [
@@ -395,6 +480,10 @@ def cases(seed):
         C("per-target-state", per_target_state_case, "state per target"),
         C("imported-same-decision", imported_same_decision_case, "imported target decided identically however reached"),
         C("two-producers-same-cmd", two_producers_same_cmd_case, "same command text in two producers"),
+        C("overlapping-resources", overlapping_resources_case, "one file through two resources"),
+        C("concurrent-saves", concurrent_saves_case, "ten targets saving their records at once"),
+        C("dep-and-output", dep_and_output_case, "producer under dependencies and as X.output"),
+        C("sibling-import", sibling_import_case, "import through .. and through a symbolic link"),
         C("shared-file-two-targets", shared_file_case, "a file regenerated by one target and read by another"),
     ]
     for kind in ("truncate", "empty", "garbage", "huge-length"):
